@@ -50,6 +50,9 @@ type Exec struct {
 	stop     bool
 
 	strangerSock  *sim.UDPSock
+	// Obs is the normalised per-client observation log (relational form of C04)
+	Obs      map[int][]string
+	SleptFor map[int]int // step index -> whole seconds actually slept
 	opStart       time.Time
 	slept         bool // virtual time advanced inside the current step (slow callback)
 	lastToken     []byte
